@@ -1,5 +1,6 @@
 import Vanguard.Model.Pool
 import Vanguard.Model.Run
+import Vanguard.Gen.Facts
 /-!
   # C15 — the outcome of an RPC is independent of earlier traffic
 
@@ -148,5 +149,10 @@ example : (pooledCompress (rleCompress 0x5A) { pending := [7, 7, 7], ready := fa
   decide
 example : (pooledDecompress (rleDecompress 0x5A) { out := [5], bad := true } [0x5A, 3, 8] 2).1 = .error .limit := by
   rfl
+
+
+/-- The recycling bound of the pool model is the constant in `buffers.go` as the source reads now
+    (regenerated by `/verif/extract` on every run). -/
+theorem source_recycle_bound_is_model : Gen.maxRecycleBufferSize = maxRecycle := by decide
 
 end Vanguard.C15
